@@ -4,6 +4,7 @@ import Bng.Proof.AcctRetry
 import Bng.Proof.AcctNoDup
 import Bng.Proof.AcctPrefix
 import Bng.Model.AcctBackoff
+import Bng.Proof.AcctDirect
 /-
   C08 — Every started session is accounted to a Stop, across outages and crashes.
 
@@ -412,6 +413,34 @@ theorem backoff_overflow_witness :
     the correspondence run checks at every `interim` operation through `dur=`.) -/
 theorem interim_ack_writes_nothing_durable (σ : State) (a : Ans) : (step σ (.itick a)).dur = σ.dur :=
   itick_ghost State.dur (fun _ _ => rfl) (fun _ _ _ => rfl) (fun _ _ _ => rfl) (fun _ _ => rfl) σ a
+
+/-! ## the real session paths: DHCPv4 and PPPoE send their accounting requests directly (model Bng.AcctDirect,
+    tied to pkg/dhcp Server and pkg/pppoe SessionTeardown by harness/cmd/acctdirect) -/
+
+/-- (partial: excludes KF-acct-direct-send) Every DHCP / PPPoE session that has ended has its Accounting-Stop
+    accepted by the server - unless it ended while the accounting server was unreachable. -/
+theorem direct_stop_delivered_partial (ops : List AcctDirect.Op) (s : AcctDirect.Sid)
+    (hend : s ∈ (AcctDirect.run {} ops).ended) (hclause : s ∉ (AcctDirect.run {} ops).endedDown) :
+    AcctDirect.stopOf s ∈ (AcctDirect.run {} ops).log := by
+  have h := AcctDirect.inv_run (σ := {}) (by intro x hx; simp at hx) ops s hend
+  exact h.resolve_left hclause
+
+/-- the clause is exactly the mechanism: a session enters `endedDown` only by its own RELEASE / PADT at a moment when
+    the accounting server is unreachable -/
+theorem KF_direct_send_clause_is_outage (σ : AcctDirect.State) (op : AcctDirect.Op) (x : AcctDirect.Sid)
+    (h : x ∈ (AcctDirect.step σ op).endedDown) :
+    x ∈ σ.endedDown ∨ (σ.up = false ∧ ((∃ k, op = .drel k ∧ x.path = .dhcp ∧ x.k = k) ∨
+      (∃ k, op = .ppadt k ∧ x.path = .pppoe ∧ x.k = k))) :=
+  AcctDirect.endedDown_step σ op x h
+
+/-- KF-acct-direct-send: the Start of a DHCP session is accepted, the session is released during an outage, the
+    server comes back - and the Stop is never sent: nothing queued it, nothing persisted it -/
+theorem KF_direct_send_witness :
+    ∃ ops : List AcctDirect.Op, ∃ s : AcctDirect.Sid,
+      (AcctDirect.run {} ops).up = true ∧ (⟨.start, s⟩ : AcctDirect.Rec) ∈ (AcctDirect.run {} ops).log ∧
+      s ∈ (AcctDirect.run {} ops).ended ∧ AcctDirect.stopOf s ∉ (AcctDirect.run {} ops).log ∧
+      (AcctDirect.run {} ops).leases = [] :=
+  ⟨[.dreq 1, .srv false, .drel 1, .srv true], ⟨.dhcp, 1, 1⟩, by decide⟩
 
 /-! ## overlapping API calls -/
 
